@@ -47,9 +47,65 @@ def task(v):
                  % ([c.get("kind") for c in top], upd, first_walk))
 
 
+UPD = "reb_simulation_update_tree"
+
+
+def members(n):
+    return {x.get("name") for x in frames.walk(n) if x.get("kind") == "MemberExpr"}
+
+
+def complete_task(v):
+    """A module that uses the tree may be selected AFTER particles were added (sim.add(...); sim.collision = "tree"): those
+    particles were never inserted (reb_simulation_add inserts only while a tree module is selected), so the tree walk did not see
+    them -- no collision detected, no tree gravity (natively reproduced; repaired by a fix: commit).  Structural contract on the
+    real reb_simulation_update_tree (src/tree.c), which every tree user calls before it walks the tree: before the root cells are
+    updated, a loop over ALL particles (bound r->N) inserts every particle that is in no leaf yet (its back pointer `c` is NULL)
+    with reb_tree_add_particle_to_tree, guarded by nothing but the box having been configured (root_size)."""
+    tu, fn = v.eng.find_function(UPD)
+    body = tu.body(fn)
+    top = [c for c in body.get("inner", ()) if isinstance(c, dict)]
+    first_update = next((k for k, c in enumerate(top) if "reb_simulation_update_tree_cell" in calls_in(c)), None)
+    v.ground("root_cells_are_updated", first_update is not None, str([c.get("kind") for c in top]))
+    found = []
+
+    def visit(n, guards, k):
+        if not isinstance(n, dict):
+            return
+        kind = n.get("kind")
+        if kind == "ForStmt" and "reb_tree_add_particle_to_tree" in calls_in(n):
+            inner = [c for c in n.get("inner", ()) if isinstance(c, dict)]
+            cond = inner[2] if len(inner) >= 3 else {}
+            ifs = [x for x in frames.walk(inner[-1]) if x.get("kind") == "IfStmt" and "reb_tree_add_particle_to_tree" in calls_in(x)]
+            ok_guard = len(ifs) == 1 and "c" in members(ifs[0]["inner"][0]) and \
+                any(x.get("kind") == "BinaryOperator" and x.get("opcode") == "==" for x in frames.walk(ifs[0]["inner"][0])) and \
+                members(ifs[0]["inner"][0]) <= {"c", "particles"}
+            found.append({"top_level_index": k, "bound_is_N": "N" in members(cond) and not ({"N_active", "N_var"} & members(cond)),
+                          "inserts_iff_in_no_leaf": ok_guard, "outer_guards": sorted(set().union(*[members(g) for g in guards]) if guards else [])})
+            return
+        if kind == "IfStmt":
+            inner = n.get("inner", [])
+            for c in inner[1:]:
+                visit(c, guards + [inner[0]], k)
+            return
+        for c in n.get("inner", ()):
+            visit(c, guards, k)
+    for k, c in enumerate(top):
+        visit(c, [], k)
+    v.ground("inserts_the_particles_that_are_in_no_leaf.loop_found", len(found) == 1, str(found))
+    if len(found) != 1:
+        return
+    f = found[0]
+    v.ground("inserts_the_particles_that_are_in_no_leaf.over_all_particles", f["bound_is_N"], str(f))
+    v.ground("inserts_the_particles_that_are_in_no_leaf.exactly_those", f["inserts_iff_in_no_leaf"], str(f))
+    v.ground("inserts_the_particles_that_are_in_no_leaf.whenever_the_box_is_configured", set(f["outer_guards"]) <= {"root_size"}, str(f))
+    v.ground("inserts_the_particles_that_are_in_no_leaf.before_the_root_cells_are_updated",
+             first_update is not None and f["top_level_index"] < first_update, "%s, root update at %s" % (f, first_update))
+
+
 def make(prop, why):
-    P = Pack(prop, FILES, why)
+    P = Pack(prop, FILES + ["src/tree.c"], why)
     P.tasks.append(Task(P, "collision_search.tree_is_fresh", FN, task, files=FILES))
+    P.tasks.append(Task(P, "update_tree.tree_is_complete", UPD, complete_task, files=["src/tree.c"]))
     return P
 
 
